@@ -276,17 +276,84 @@ theorem wfg_valueInnerSet {K h} (w : WFG K h) (p i j : Nat) (s : String) : WFG K
     · exact w
     · exact wfg_listInnerSet w _ i j s
 
+theorem wfg_initRecord {K h} (w : WFG K h) (x : Nat) (hx : x < h.nN) : WFG K (initRecord h x) := by
+  unfold initRecord
+  have w1 : WFG K (allocD h []).1 := wfg_same w rfl rfl rfl rfl (Nat.le_refl _)
+  exact wfg_updN w1 x _ hx rfl (fun hn => hn)
+
 theorem wfg_newObj {K h} (w : WFG K h) (k : Kind) (name : String) (attrs : List String) (vals : List Lit) :
     WFG K (newObj h k name attrs vals).1 := by
   unfold newObj
   simp only
   have w0 : WFG K { h with nextId := h.nextId + 1 } := wfg_same w rfl rfl rfl rfl (Nat.le_refl _)
-  have w1 := wfg_allocN w0 (Node.mk k name h.nextId attrs none [] [] none none)
+  have w1 := wfg_allocN w0 (Node.mk k name h.nextId attrs none [] [] none none 0)
     ⟨fun _ p hp => by simp at hp, fun _ c hc => by simp at hc, fun _ c hc => by simp at hc,
      fun _ c hc => by simp at hc⟩
   split
   · exact wfg_set w1 (setValuesLits_spec _ _ vals) (by simp)
-  · exact w1
+  · split
+    · exact wfg_initRecord w1 _ (by simp)
+    · exact w1
+
+/-! ### The record of a merge: only the attributes, the record address and `_merged` of one object -/
+
+theorem wfg_fillAttr {K h} (w : WFG K h) (x t d k : Nat) (hx : x < h.nN) : WFG K (fillAttr h x t d k) := by
+  unfold fillAttr
+  split
+  · rename_i v _ _
+    have w1 := wfg_updN w x (fun n => { n with attrs := n.attrs.set k v }) hx rfl (fun hn => hn)
+    exact wfg_same w1 rfl rfl rfl rfl (Nat.le_refl _)
+  · exact w
+
+theorem fillAttr_nN (h : H) (x t d k : Nat) : (fillAttr h x t d k).nN = h.nN := by
+  unfold fillAttr; split <;> rfl
+
+theorem wfg_takeBack {K} (x : Nat) : ∀ (l : List (Nat × String)) (h : H), WFG K h → x < h.nN →
+    WFG K (takeBack h x l) ∧ (takeBack h x l).nN = h.nN := by
+  intro l
+  induction l with
+  | nil => intro h w _; exact ⟨w, rfl⟩
+  | cons kv rest ih =>
+    intro h w hx
+    obtain ⟨k, v⟩ := kv
+    simp only [takeBack]
+    split
+    · have w1 := wfg_updN w x (fun n => { n with attrs := n.attrs.set k "None" }) hx rfl (fun hn => hn)
+      exact ih _ w1 hx
+    · exact ih _ w hx
+
+theorem wfg_mergeOp {K h} (w : WFG K h) (x t : Nat) (record : Bool) (hx : x < h.nN) :
+    WFG K (mergeOp h x t record).1 := by
+  unfold mergeOp
+  split
+  · exact w
+  · unfold mergeAttrs
+    simp only
+    have w1 : WFG K (allocD h (recOf h x)).1 := wfg_same w rfl rfl rfl rfl (Nat.le_refl _)
+    have w2 := wfg_fillAttr w1 x t (allocD h (recOf h x)).2 defAttr hx
+    have n2 := fillAttr_nN (allocD h (recOf h x)).1 x t (allocD h (recOf h x)).2 defAttr
+    have w3 := wfg_fillAttr w2 x t (allocD h (recOf h x)).2 refAttr (by rw [n2]; exact hx)
+    have n3 := fillAttr_nN (fillAttr (allocD h (recOf h x)).1 x t (allocD h (recOf h x)).2 defAttr) x t
+      (allocD h (recOf h x)).2 refAttr
+    cases record with
+    | false => simpa using w3
+    | true =>
+      simp only [if_true]
+      have w4 := wfg_updN w3 x (fun n => { n with mattrs := (allocD h (recOf h x)).2 }) (by rw [n3, n2]; exact hx) rfl
+        (fun hn => hn)
+      exact wfg_updN w4 x (fun n => { n with merged := some t }) (by rw [updN_nN, n3, n2]; exact hx) rfl (fun hn => hn)
+
+theorem wfg_unmergeOp {K h} (w : WFG K h) (x : Nat) (hx : x < h.nN) : WFG K (unmergeOp h x).1 := by
+  unfold unmergeOp
+  split
+  · exact w
+  · unfold unmergeAttrs
+    simp only
+    obtain ⟨w1, n1⟩ := wfg_takeBack x (recOf h x) h w hx
+    have w2 : WFG K (allocD (takeBack h x (recOf h x)) []).1 := wfg_same w1 rfl rfl rfl rfl (Nat.le_refl _)
+    have w3 := wfg_updN w2 x (fun n => { n with mattrs := (allocD (takeBack h x (recOf h x)) []).2 })
+      (by simp [n1]; exact hx) rfl (fun hn => hn)
+    exact wfg_updN w3 x (fun n => { n with merged := none }) (by simp [n1]; exact hx) rfl (fun hn => hn)
 
 /-! ### Structural operations -/
 
@@ -850,6 +917,12 @@ theorem step_wfg {K h} (w : WFG K h) (op : Op) : WFG K (step h op).1 := by
         have := wfg_rename w x new (hguard.1 x (by simp [Op.objs]))
         simp only [optErr]; split <;> simp_all
       | setAttr x i v => exact wfg_setAttr w x i v (hguard.1 x (by simp [Op.objs]))
+      | mergeAttrs x t record =>
+        have := wfg_mergeOp w x t record (hguard.1 x (by simp [Op.objs]))
+        simp only [optErr]; split <;> simp_all
+      | unmergeAttrs x =>
+        have := wfg_unmergeOp w x (hguard.1 x (by simp [Op.objs]))
+        simp only [optErr]; split <;> simp_all
       | newId x => exact wfg_newId w x
 
 theorem run_wfg {K} : ∀ (ops : List Op) (h : H), WFG K h → WFG K (run h ops) := by
